@@ -293,6 +293,8 @@ class Ctx:
             self.distinct.add(hashlib.sha1(canon(inp).encode()).hexdigest())
         for t in tags:
             self.tags[t] += 1
+        if isinstance(inp, dict) and isinstance(inp.get("ast"), dict) and inp["ast"].get("$twin"):
+            self.tags["hash-colliding-twin-of-previous-model"] += 1
         if len(self.samples) < 3 and nontrivial:
             self.samples.append(inp)
 
@@ -313,6 +315,32 @@ class Ctx:
 
     def skip(self, why):
         self.skipped[why] += 1
+
+
+class CallTimeout(Exception):
+    pass
+
+
+class time_limit:
+    """`with time_limit(s):` — raises CallTimeout in the main thread when the body (a call into the code under check)
+    does not return within s seconds; a call that never returns is reported with its input instead of hanging the check"""
+
+    def __init__(self, seconds):
+        self.seconds = seconds
+
+    def __enter__(self):
+        import signal
+        def handler(signum, frame):
+            raise CallTimeout(f"no result within {self.seconds} s")
+        self.old = signal.signal(signal.SIGALRM, handler)
+        signal.setitimer(signal.ITIMER_REAL, self.seconds, 0.5)     # repeats: a raise inside a frame called from C may be swallowed
+        return self
+
+    def __exit__(self, *exc):
+        import signal
+        signal.setitimer(signal.ITIMER_REAL, 0)
+        signal.signal(signal.SIGALRM, self.old)
+        return False
 
 
 def load_known(pid):
@@ -370,7 +398,30 @@ def run_check(pid, module, argv):
     try:
         if a.replay:
             rp = json.load(open(a.replay))
+            tw = rp["input"].get("ast", {}).get("$twin_of") if isinstance(rp["input"], dict) and isinstance(rp["input"].get("ast"), dict) else None
+            if tw is not None:
+                # a hash-colliding twin fails only after its original was handled in the same process: warm up, unjudged
+                try:
+                    module.do_case(Ctx(pid, a.tier, a.seed), {**rp["input"], "ast": tw})
+                except Exception:
+                    pass
+            if isinstance(rp["input"], dict) and isinstance(rp["input"].get("prev"), dict):
+                try:
+                    module.do_case(Ctx(pid, a.tier, a.seed), rp["input"]["prev"])
+                except Exception:
+                    pass
             module.do_case(ctx, rp["input"])
+            if not ctx.failures and rp.get("kind") == "property-failure":
+                # the input alone does not fail: the failure depended on inputs handled earlier in the same process
+                # (memoised state) — replay the whole seeded run the file came from
+                print(f"replay: the recorded input alone does not fail; re-running the seeded run (tier={rp.get('tier')}, seed={rp.get('seed')})")
+                ctx = Ctx(pid, rp.get("tier", a.tier), int(rp.get("seed", a.seed)))
+                cdir = os.path.join(VERIF, "corpus", pid)
+                if os.path.isdir(cdir):
+                    for fn in sorted(os.listdir(cdir)):
+                        if fn.endswith(".json"):
+                            module.do_case(ctx, json.load(open(os.path.join(cdir, fn)))["input"])
+                module.run(ctx)
         else:
             # corpus first: minimised past disagreements and witnesses of repaired defects
             cdir = os.path.join(VERIF, "corpus", pid)
